@@ -124,7 +124,7 @@ theorem image_rt (w : Nat) (hw : 1 ≤ w) (rows : List (List Bool)) (hrows : ∀
   simp only [ccittfaxdecode, ne_eq, not_true_eq_false, if_false, Option.getD_some, hc, Int.toNat_natCast,
     T6.encodeImage]
   rw [feedBytes_flat _ _ 0 rfl, hup, hf]
-  simp only [hb]
+  simp only [hb, packLine_fun]
   rfl
 
 /-- The same through the parameter dictionary (the `CCITTFaxDecode` branch of `PDFStream.decode`
@@ -138,7 +138,7 @@ theorem stream_rt (p : Params) (w : Nat) (hw : 1 ≤ w) (hK : p.K = some (-1))
       = .ok (T6.packImage (p.blackIs1.getD false) rows) := by
   have h := image_rt w hw rows hrows chs (p.encodedByteAlign.getD false) eofb (p.blackIs1.getD false)
   simp only [ccittfaxdecodeParams, hK]
-  simp only [ccittfaxdecode, ne_eq, not_true_eq_false, if_false, Option.getD_some, hcol] at h ⊢
+  simp only [ccittfaxdecode, CcittCode.columnsDefault, Option.getD_some, hcol] at h ⊢
   exact h
 
 /-! ## Non-vacuity: concrete instances, evaluated by the kernel -/
